@@ -9,6 +9,9 @@ use std::io::{self, Cursor, Read, Write};
 use std::fs::File;
 
 use std::str::FromStr;
+#[cfg(tiny_http_verif)]
+use crate::verif_rt::time::SystemTime;
+#[cfg(not(tiny_http_verif))]
 use std::time::SystemTime;
 
 /// Object representing an HTTP response whose purpose is to be given to a `Request`.
